@@ -210,7 +210,9 @@ Definition target_statement (c : config) (p : parser) : Prop :=
    or SP and the version token *)
 Definition request_line_pieces (fl cmd uri ver : bytes) : Prop :=
   cmd = until (N.eqb 32) fl /\ cmd <> [] /\
-  Forall (fun x => 33 <= x <= 126 /\ ~ (97 <= x <= 122)) cmd.
+  Forall (fun x => 33 <= x <= 126 /\ ~ (97 <= x <= 122)) cmd /\
+  ((fl = cmd ++ [32] ++ uri /\ ver = []) \/
+   (exists v, fl = cmd ++ [32] ++ uri ++ [32] ++ v /\ ver = skipn 5 v)).
 
 Theorem target_image a c ds p :
   Forall ok ds ->
@@ -239,5 +241,6 @@ Proof.
       rewrite R3 in W. destruct (split_uri_spec _ _ _ _ _ _ W SP) as (P & Q).
       rewrite R4, R5, R3, P, Q. split; reflexivity.
   - exists hp, fl, lines. split; [exact (ar_head _ _ _ _ _ _ AR)|]. split; [exact (ah_find _ _ _ _ _ _ _ AH)|].
-    unfold request_line_pieces. rewrite R1. auto.
+    unfold request_line_pieces. rewrite R1, R2, R3. split; [exact M1|]. split; [exact M2|]. split; [exact M3|].
+    exact (crack_first_line_shape _ _ _ _ (ah_crack _ _ _ _ _ _ _ AH) (ah_crack_ne _ _ _ _ _ _ _ AH)).
 Qed.
